@@ -1,4 +1,392 @@
-//! addressbook: not built yet.
-pub fn run(args: &vh_common::Args) {
-    vh_common::unknown(args)
+//! AddressBook (C27): `NodeInfo::update_transports` and the real address-book actor
+//! (`AddressBook::builder().spawn()` + `insert_transport_info` / `insert_node_info` / `node_info`)
+//! against spec/AddressBook.
+//!
+//! The specification's records are classes `[id, node, ts, kind, forge]`; this file makes each of
+//! them a real `TransportInfo`: real Ed25519 keys per node, real signatures, real
+//! `HybridTimestamp`s, real iroh endpoint addresses, and for every forgery class the real
+//! manipulation (signed by another key, timestamp / addresses changed after signing, an address
+//! naming another node).
+use std::collections::BTreeMap;
+use std::net::SocketAddr;
+
+use p2panda_core::SigningKey;
+use p2panda_core::timestamp::{HybridTimestamp, LamportTimestamp, Timestamp};
+use p2panda_net::addrs::{
+    NodeInfo, NodeTransportInfo, TransportAddress, TransportInfo, TrustedTransportInfo, UnsignedTransportInfo,
+};
+use p2panda_net::utils::from_verifying_key;
+use p2panda_net::{AddressBook, NodeId};
+use vh_common::{Args, Outcome, Rng, TraceWriter, Value, json, read_ndjson, unknown};
+
+pub fn run(args: &Args) {
+    match args.mode.as_str() {
+        "replay" => replay(args),
+        "record" => record(args),
+        _ => unknown(args),
+    }
+}
+
+const T0: u64 = 1_700_000_000_000_000;
+
+/// Abstract timestamp -> real hybrid timestamp, order preserving. Two encodings so that both the
+/// wall-clock part and the logical part decide comparisons.
+fn hybrid(ts: u64, encoding: u64) -> HybridTimestamp {
+    match encoding % 2 {
+        0 => HybridTimestamp::from_parts(Timestamp::new(T0 + ts), LamportTimestamp::new(0)),
+        _ => HybridTimestamp::from_parts(Timestamp::new(T0 + ts / 2), LamportTimestamp::new(ts % 2)),
+    }
+}
+
+/// Inverse for recorded traces: a small integer with the same order as the real timestamp.
+fn rank(t: HybridTimestamp) -> i64 {
+    let (wall, logical) = t.to_parts();
+    let wall: u64 = wall.into();
+    let logical: u64 = logical.to_string().parse().expect("lamport timestamp prints as a number");
+    (wall as i64 - T0 as i64) * 4 + logical as i64
+}
+
+struct Keys {
+    salt: u64,
+    cache: BTreeMap<String, SigningKey>,
+}
+
+impl Keys {
+    fn new(salt: u64) -> Keys {
+        Keys { salt, cache: BTreeMap::new() }
+    }
+
+    fn key(&mut self, name: &str) -> SigningKey {
+        let salt = self.salt;
+        self.cache
+            .entry(name.to_string())
+            .or_insert_with(|| {
+                let mut bytes = [0u8; 32];
+                bytes[..8].copy_from_slice(&salt.to_le_bytes());
+                for (i, b) in name.bytes().enumerate().take(16) {
+                    bytes[8 + i] = b;
+                }
+                bytes[31] = 0x5a;
+                SigningKey::from_bytes(&bytes)
+            })
+            .clone()
+    }
+
+    fn id(&mut self, name: &str) -> NodeId {
+        self.key(name).verifying_key()
+    }
+}
+
+fn address(owner: NodeId, tag: u64) -> TransportAddress {
+    let sock: SocketAddr = format!("10.{}.{}.{}:{}", (tag >> 16) & 0xff, (tag >> 8) & 0xff, tag & 0xff, 2000 + (tag % 1000)).parse().unwrap();
+    TransportAddress::Iroh(iroh_base::EndpointAddr::new(from_verifying_key(owner)).with_ip_addr(sock))
+}
+
+fn tag_of(id: &str) -> u64 {
+    id.bytes().fold(7u64, |h, b| h.wrapping_mul(131).wrapping_add(b as u64)) & 0xff_ffff
+}
+
+/// The real transport info of an abstract record.
+fn concretise(rec: &Value, keys: &mut Keys, encoding: u64) -> (NodeId, TransportInfo) {
+    let id = rec["id"].as_str().expect("rec.id");
+    let node = rec["node"].as_str().expect("rec.node");
+    let ts = rec["ts"].as_u64().expect("rec.ts");
+    let kind = rec["kind"].as_str().expect("rec.kind");
+    let forge = rec["forge"].as_str().expect("rec.forge");
+    let node_id = keys.id(node);
+    let other = keys.id("__other__");
+    let tag = tag_of(id);
+    let timestamp = hybrid(ts, encoding);
+    let info = match (kind, forge) {
+        ("auth", "none") => {
+            let unsigned = UnsignedTransportInfo { timestamp, addresses: vec![address(node_id, tag)] };
+            TransportInfo::Authenticated(unsigned.sign(&keys.key(node)).expect("sign"))
+        }
+        ("auth", "wrong_signer") => {
+            let unsigned = UnsignedTransportInfo { timestamp, addresses: vec![address(node_id, tag)] };
+            TransportInfo::Authenticated(unsigned.sign(&keys.key("__other__")).expect("sign"))
+        }
+        ("auth", "tampered_ts") => {
+            // genuinely signed with an OLD timestamp, then post-dated to `ts`
+            let unsigned = UnsignedTransportInfo { timestamp: hybrid(0, encoding), addresses: vec![address(node_id, tag)] };
+            let mut signed = unsigned.sign(&keys.key(node)).expect("sign");
+            signed.timestamp = timestamp;
+            TransportInfo::Authenticated(signed)
+        }
+        ("auth", "tampered_addr") => {
+            let unsigned = UnsignedTransportInfo { timestamp, addresses: vec![address(node_id, tag)] };
+            let mut signed = unsigned.sign(&keys.key(node)).expect("sign");
+            signed.addresses = vec![address(node_id, tag ^ 0x55)];
+            TransportInfo::Authenticated(signed)
+        }
+        ("trusted", "none") => TransportInfo::Trusted(TrustedTransportInfo { timestamp, addresses: vec![address(node_id, tag)] }),
+        ("trusted", "id_mismatch") => TransportInfo::Trusted(TrustedTransportInfo { timestamp, addresses: vec![address(other, tag)] }),
+        other => panic!("unknown record class {other:?}"),
+    };
+    (node_id, info)
+}
+
+fn reply_of<E>(r: &Result<bool, E>) -> &'static str {
+    match r {
+        Ok(true) => "newer",
+        Ok(false) => "older",
+        Err(_) => "error",
+    }
+}
+
+/// Which abstract record is stored (by equality with the concrete infos handed in so far).
+fn stored_id(info: Option<&TransportInfo>, known: &[(String, TransportInfo)]) -> String {
+    match info {
+        None => "none".into(),
+        Some(t) => known.iter().find(|(_, k)| k == t).map(|(id, _)| id.clone()).unwrap_or_else(|| "unknown".into()),
+    }
+}
+
+fn runtime() -> tokio::runtime::Runtime {
+    tokio::runtime::Builder::new_current_thread().enable_all().build().expect("runtime")
+}
+
+// ------------------------------------------------------------------------------------------------
+// Replay
+
+fn replay(args: &Args) {
+    let behaviours = read_ndjson(args.input.as_ref().expect("--in"));
+    let mut out = Outcome::new(
+        args,
+        "every TLC-exported arrival order executed (1) on NodeInfo::update_transports and (2) on the real address-book actor \
+         (insert_transport_info / insert_node_info, state read back with node_info) with real keys, signatures and hybrid timestamps; \
+         reply and stored record of every node compared after every call; non-trivial = a forged record or an older record arrives \
+         while something is stored; distinct by behaviour",
+    );
+    let rt = runtime();
+    let per_book = args.extra_usize("per_book", 200);
+    let mut book: Option<AddressBook> = None;
+    for (bi, b) in behaviours.iter().enumerate() {
+        out.eval();
+        let steps = b["steps"].as_array().expect("steps");
+        let encoding = bi as u64;
+        let mut keys = Keys::new(args.seed.wrapping_mul(1_000_003).wrapping_add(bi as u64));
+        let node_names: Vec<String> = steps
+            .first()
+            .and_then(|s| s["stored"].as_object())
+            .map(|o| o.keys().cloned().collect())
+            .unwrap_or_default();
+        let nontrivial = steps.iter().any(|s| s["reply"] == "error" || s["reply"] == "older");
+        if nontrivial {
+            out.mark_distinct(b["steps"].to_string());
+        }
+
+        // ---- (1) NodeInfo::update_transports, no actor -----------------------------------------
+        let only_arrivals = steps.iter().all(|s| s["call"] == "InsertTransportInfo");
+        if only_arrivals {
+            let mut infos: BTreeMap<String, NodeInfo> = node_names.iter().map(|n| (n.clone(), NodeInfo::new(keys.id(n)))).collect();
+            let mut known: Vec<(String, TransportInfo)> = Vec::new();
+            for (k, s) in steps.iter().enumerate() {
+                let (_, info) = concretise(&s["rec"], &mut keys, encoding);
+                known.push((s["rec"]["id"].as_str().unwrap().to_string(), info.clone()));
+                let node = s["rec"]["node"].as_str().unwrap();
+                let r = vh_common::catch(|| infos.get_mut(node).unwrap().update_transports(info));
+                let r = match r {
+                    Ok(r) => r,
+                    Err(p) => {
+                        out.violation("C27", "update-transports-panics", p, b.clone());
+                        break;
+                    }
+                };
+                let got_reply = reply_of(&r);
+                let want_reply = s["reply"].as_str().unwrap();
+                let mut bad = None;
+                if got_reply != want_reply {
+                    bad = Some(format!("step {k}: update_transports({}) replied {got_reply}, spec says {want_reply}", s["rec"]["id"]));
+                }
+                for n in &node_names {
+                    let got = stored_id(infos[n].transports.as_ref(), &known);
+                    let want = s["stored"][n].as_str().unwrap();
+                    if got != want && bad.is_none() {
+                        bad = Some(format!("step {k}: after update_transports({}) node {n} holds {got}, spec says {want}", s["rec"]["id"]));
+                    }
+                }
+                if let Some(detail) = bad {
+                    let sig = classify(s, &detail);
+                    out.violation("C27", &format!("nodeinfo:{sig}"), detail, b.clone());
+                    break;
+                }
+            }
+            out.count("ran_on_nodeinfo");
+        }
+
+        // ---- (2) the real actor -------------------------------------------------------------------
+        if book.is_none() || bi % per_book == 0 {
+            book = Some(rt.block_on(async { AddressBook::builder().spawn().await.expect("spawn address book") }));
+            out.count("address_books_spawned");
+        }
+        let ab = book.as_ref().unwrap();
+        let res: Result<Option<(String, String)>, String> = rt.block_on(async {
+            let mut known: Vec<(String, TransportInfo)> = Vec::new();
+            for (k, s) in steps.iter().enumerate() {
+                let (node_id, info) = concretise(&s["rec"], &mut keys, encoding);
+                known.push((s["rec"]["id"].as_str().unwrap().to_string(), info.clone()));
+                let call = s["call"].as_str().unwrap();
+                let got_reply = match call {
+                    "InsertTransportInfo" => reply_of(&ab.insert_transport_info(node_id, info).await).to_string(),
+                    "InsertNodeInfo" => {
+                        let mut ni = NodeInfo::new(node_id);
+                        ni.bootstrap = s["flag"].as_bool().unwrap();
+                        ni.transports = Some(info);
+                        match ab.insert_node_info(ni).await {
+                            Ok(_) => "ok".to_string(),
+                            Err(_) => "error".to_string(),
+                        }
+                    }
+                    other => panic!("unknown call {other}"),
+                };
+                let want_reply = s["reply"].as_str().unwrap();
+                if got_reply != want_reply {
+                    let detail = format!("step {k}: {call}({}) replied {got_reply}, spec says {want_reply}", s["rec"]["id"]);
+                    return Ok(Some((classify(s, &detail), detail)));
+                }
+                for n in &node_names {
+                    let ni = ab.node_info(keys.id(n)).await.map_err(|e| format!("node_info failed: {e}"))?;
+                    let got = stored_id(ni.as_ref().and_then(|x| x.transports.as_ref()), &known);
+                    let want = s["stored"][n].as_str().unwrap();
+                    if got != want {
+                        let detail = format!("step {k}: after {call}({}) the book holds {got} for {n}, spec says {want}", s["rec"]["id"]);
+                        return Ok(Some((classify(s, &detail), detail)));
+                    }
+                    let got_boot = ni.as_ref().map(|x| x.bootstrap).unwrap_or(false);
+                    let want_boot = s["boot"][n].as_bool().unwrap();
+                    if got_boot != want_boot {
+                        let detail = format!("step {k}: after {call}({}) bootstrap flag of {n} is {got_boot}, spec says {want_boot}", s["rec"]["id"]);
+                        return Ok(Some(("local-data-changed".into(), detail)));
+                    }
+                }
+            }
+            Ok(None)
+        });
+        match res {
+            Ok(None) => {}
+            Ok(Some((sig, detail))) => out.violation("C27", &format!("actor:{sig}"), detail, b.clone()),
+            Err(e) => {
+                eprintln!("address book unusable: {e}");
+                std::process::exit(2);
+            }
+        }
+        out.sample(b.clone());
+    }
+    out.write(args);
+}
+
+/// Stable failure class from the step the implementation disagreed on.
+fn classify(step: &Value, detail: &str) -> String {
+    let forged = step["rec"]["forge"] != "none";
+    if forged && !detail.contains("spec says error") || forged && detail.contains("holds") {
+        "forged-record-accepted".into()
+    } else if forged {
+        "forged-record-verdict".into()
+    } else if step["reply"] == "older" {
+        "older-record-replaced-newer".into()
+    } else if step["reply"] == "newer" {
+        "newer-authentic-record-not-stored".into()
+    } else {
+        "differs-from-spec".into()
+    }
+}
+
+// ------------------------------------------------------------------------------------------------
+// Record
+
+fn rec_json(id: &str, node: &str, info: &TransportInfo, kind: &str, forge: &str) -> Value {
+    json!({"id": id, "node": node, "ts": rank(info.timestamp()), "kind": kind, "forge": forge})
+}
+
+fn record(args: &Args) {
+    let mut rng = Rng::new(args.seed);
+    let n = if args.n > 0 { args.n } else { 40 };
+    let mut trace = TraceWriter::create(args.out.as_ref().expect("--out"));
+    let mut out = Outcome::new(
+        args,
+        "seeded random histories on the real address-book actor: up to 3 nodes, up to 12 records per node with random (also equal) \
+         timestamps, all forgery classes, repeated arrivals, occasional local overwrites (insert_node_info); one event per call with \
+         reply and the stored record / bootstrap flag of every node read back through node_info; non-trivial = run contains a forged \
+         and an out-of-order arrival; distinct by run",
+    );
+    let rt = runtime();
+    for run in 0..n {
+        let ab = rt.block_on(async { AddressBook::builder().spawn().await.expect("spawn address book") });
+        let mut keys = Keys::new(args.seed.wrapping_mul(7919).wrapping_add(run as u64));
+        let node_names: Vec<String> = (1..=rng.range(1, 3)).map(|i| format!("n{i}")).collect();
+        let encoding = rng.below(2);
+        let with_overwrites = rng.chance(1, 3);
+        trace.event(json!({"ev": "Reset", "run": run, "nodes": node_names}));
+        // pool
+        let mut pool: Vec<Value> = Vec::new();
+        for node in &node_names {
+            for i in 0..rng.range(2, 12) {
+                let (kind, forge) = match rng.below(12) {
+                    0 => ("auth", "wrong_signer"),
+                    1 => ("auth", "tampered_ts"),
+                    2 => ("auth", "tampered_addr"),
+                    3 => ("trusted", "id_mismatch"),
+                    4 | 5 | 6 => ("trusted", "none"),
+                    _ => ("auth", "none"),
+                };
+                pool.push(json!({"id": format!("{node}r{i}"), "node": node, "ts": rng.range(1, 14), "kind": kind, "forge": forge}));
+            }
+        }
+        let calls = rng.range(pool.len() as u64, pool.len() as u64 * 2);
+        let mut known: Vec<(String, TransportInfo)> = Vec::new();
+        let mut saw_forged = false;
+        let mut saw_older = false;
+        let ok: Result<(), String> = rt.block_on(async {
+            for _ in 0..calls {
+                let r = rng.pick(&pool).clone();
+                let (node_id, info) = concretise(&r, &mut keys, encoding);
+                let id = r["id"].as_str().unwrap().to_string();
+                if !known.iter().any(|(k, _)| *k == id) {
+                    known.push((id.clone(), info.clone()));
+                }
+                let rec = rec_json(&id, r["node"].as_str().unwrap(), &info, r["kind"].as_str().unwrap(), r["forge"].as_str().unwrap());
+                out.eval();
+                let overwrite = with_overwrites && rng.chance(1, 8);
+                let (call, reply, flag) = if overwrite {
+                    let flag = rng.chance(1, 2);
+                    let mut ni = NodeInfo::new(node_id);
+                    ni.bootstrap = flag;
+                    ni.transports = Some(info);
+                    let reply = match ab.insert_node_info(ni).await {
+                        Ok(_) => "ok",
+                        Err(_) => "error",
+                    };
+                    ("InsertNodeInfo", reply, flag)
+                } else {
+                    let reply = reply_of(&ab.insert_transport_info(node_id, info).await);
+                    ("InsertTransportInfo", reply, false)
+                };
+                saw_forged |= reply == "error";
+                saw_older |= reply == "older";
+                let mut stored = serde_json::Map::new();
+                let mut boot = serde_json::Map::new();
+                for n in &node_names {
+                    let ni = ab.node_info(keys.id(n)).await.map_err(|e| format!("node_info failed: {e}"))?;
+                    stored.insert(n.clone(), json!(stored_id(ni.as_ref().and_then(|x| x.transports.as_ref()), &known)));
+                    boot.insert(n.clone(), json!(ni.as_ref().map(|x| x.bootstrap).unwrap_or(false)));
+                }
+                trace.event(json!({"ev": call, "rec": rec, "flag": flag, "reply": reply, "stored": stored, "boot": boot}));
+            }
+            Ok(())
+        });
+        if let Err(e) = ok {
+            eprintln!("address book unusable: {e}");
+            std::process::exit(2);
+        }
+        if saw_forged && saw_older {
+            out.mark_distinct(format!("run{run}"));
+        }
+        if run < 2 {
+            out.sample(json!({"nodes": node_names, "pool": pool.len(), "calls": calls, "overwrites": with_overwrites}));
+        }
+    }
+    let (events, runs) = trace.finish();
+    out.set_trace(events, runs);
+    out.write(args);
 }
